@@ -5,10 +5,19 @@ from .. import core, oracle as O, util as U
 from ..observe import run as brun
 
 PID = 'C16'
-try:
-    sys.set_int_max_str_digits(0)
-except Exception:
-    pass
+
+
+class unlimited(object):
+    """The reference needs int <-> str conversions of any size; the library call must see the
+    interpreter's default conversion limit (4300 digits), as a user's process would."""
+
+    def __enter__(self):
+        self.old = sys.get_int_max_str_digits()
+        sys.set_int_max_str_digits(0)
+
+    def __exit__(self, *a):
+        sys.set_int_max_str_digits(self.old)
+
 
 
 def LIM(L):
